@@ -33,7 +33,7 @@ impl SwiftField for Field57A {
     where
         Self: Sized,
     {
-        let lines: Vec<&str> = input.lines().collect();
+        let lines: Vec<&str> = input.split('\n').collect();
 
         if lines.is_empty() {
             return Err(ParseError::InvalidFormat {
@@ -110,7 +110,7 @@ impl SwiftField for Field57B {
             });
         }
 
-        let lines: Vec<&str> = input.lines().collect();
+        let lines: Vec<&str> = input.split('\n').collect();
         let mut party_identifier = None;
         let mut location = None;
         let mut current_idx = 0;
@@ -136,7 +136,15 @@ impl SwiftField for Field57B {
                     message: "Field 57B location exceeds 35 characters".to_string(),
                 });
             }
-            if !loc.is_empty() {
+            if loc.is_empty() {
+                // an empty location is only the absent location of a content that ends with the
+                // party identifier; a line break followed by nothing is not a location
+                if current_idx > 0 {
+                    return Err(ParseError::InvalidFormat {
+                        message: "Field 57B location line is empty".to_string(),
+                    });
+                }
+            } else {
                 parse_swift_chars(loc, "Field 57B location")?;
                 location = Some(loc.to_string());
             }
@@ -224,7 +232,7 @@ impl SwiftField for Field57D {
     where
         Self: Sized,
     {
-        let lines: Vec<&str> = input.lines().collect();
+        let lines: Vec<&str> = input.split('\n').collect();
 
         if lines.is_empty() {
             return Err(ParseError::InvalidFormat {
